@@ -32,7 +32,7 @@ def build():
 
 def prun(cmd, stdin=None, stdout=subprocess.PIPE, cwd=None):
     """-> (rc, stdout bytes or b'', stderr text). rc None = hang (timed out twice)."""
-    for tmo in (TMO, TMO * 10):
+    for tmo in ((TMO * 10,) if isinstance(stdout, int) and stdout >= 0 else (TMO, TMO * 10)):   # a sink cannot be re-used
         try:
             r = subprocess.run(cmd, stdin=stdin if stdin is not None else subprocess.DEVNULL, stdout=stdout,
                                stderr=subprocess.PIPE, env=ENV, cwd=cwd, timeout=tmo)
@@ -120,14 +120,16 @@ class Acc:
 # part 1: files
 
 def file_cases(level, ext):
-    """Tool cases as (tool, mode, T, opts).  opts over S=--single-stream I=--ignore-check F=-f Q=-Q."""
+    """Tool cases as (tool, mode, T, opts).  opts over S=--single-stream I=--ignore-check F=-f Q=-Q K=-k
+    (-k / --single-stream also switch off the fsync of the target, which otherwise dominates the run time;
+    the synchronous default is kept for one case per thread count in the full matrix)."""
     c = []
     if level == "full":
         for T in (1, 2, 4):
             for o in ("", "S", "I", "IS", "F", "Q", "FS", "IQ"):
                 c.append(("xz", "dc", T, o))
             for o in ("", "S", "I", "Q"):
-                c.append(("xz", "d", T, o))
+                c.append(("xz", "d", T, o + ("K" if o else "")))
                 c.append(("xz", "t", T, o))
             c.append(("xz", "dcfile", T, ""))
         c.append(("xz", "dcstdin", 1, ""))
@@ -139,7 +141,7 @@ def file_cases(level, ext):
         c += [("xz", "dc", 1, ""), ("xz", "dc", 2, ""), ("xz", "dc", 4, ""),
               ("xz", "dc", 1, "S"), ("xz", "dc", 1, "I"), ("xz", "dc", 1, "F"), ("xz", "dc", 1, "Q"),
               ("xz", "dc", 4, "S"), ("xz", "dc", 4, "I"),
-              ("xz", "d", 1, ""), ("xz", "d", 4, ""), ("xz", "d", 1, "S"),
+              ("xz", "d", 1, "K"), ("xz", "d", 4, "K"), ("xz", "d", 1, "S"),
               ("xz", "t", 1, ""), ("xz", "t", 4, ""),
               ("xz", "dcfile", 1, ""),
               ("xzdec", "file", 0, "")]
@@ -148,7 +150,7 @@ def file_cases(level, ext):
     return c
 
 
-OPTFLAGS = {"S": "--single-stream", "I": "--ignore-check", "F": "-f", "Q": "-Q"}
+OPTFLAGS = {"S": "--single-stream", "I": "--ignore-check", "F": "-f", "Q": "-Q", "K": "-k"}
 
 
 def xz_expect(L, opts, mode, data):
@@ -318,7 +320,7 @@ def seed_files():
     return out
 
 
-def gen_inputs(tier):
+def gen_inputs(tier, B):
     """Fixed-order list of (name, ext, bytes, level); duplicates (same ext + bytes) removed, first kept."""
     seeds = seed_files()
     byname = {n: (e, b) for n, e, b in seeds}
@@ -347,6 +349,22 @@ def gen_inputs(tier):
     for i, raw in enumerate([b"", b"a", b"hello world\n" * 3, b"\0" * 13, bytes(range(256)), b"\xfd7zXZ", b"LZIP",
                              b"\x5d\0\0\x80\0" + b"\xff" * 8]):
         items.append(("raw%d" % i, "xz", raw, "full"))
+    # multi-Block files with sizes in the Block Headers (what makes xz -T2/-T4 really decode in threads), two Streams
+    # in the second one; complete, cut and corrupted at evenly spaced offsets -- all with the full tool matrix
+    text = dict(rt_plaintexts())["text70k"][:40 * 1024]
+    rc, mb, err = prun([B["xz"], "-0", "-T2", "--block-size=4096", "--check=crc32", "-c"], stdin=_tmpfile(text))
+    if rc != 0:
+        raise RuntimeError("cannot create the multi-Block input: " + err)
+    rc, mb2, err = prun([B["xz"], "-1", "-T2", "--block-size=6000", "--check=sha256", "-c"], stdin=_tmpfile(text[:20000]))
+    if rc != 0:
+        raise RuntimeError("cannot create the multi-Block input: " + err)
+    for nm, blob in (("mtblocks", mb), ("mtblocks+mtblocks2", mb + mb2)):
+        items.append((nm, "xz", blob, "full"))
+        npos = 12 if tier == "quick" else 64
+        for j in range(npos):
+            k = (2 * j + 1) * len(blob) // (2 * npos)
+            items.append(("%s[:%d]" % (nm, k), "xz", blob[:k], "full"))
+            items.append(("%s^20@%d" % (nm, k), "xz", blob[:k] + bytes([blob[k] ^ 0x20]) + blob[k + 1:], "full"))
     # truncations and single-byte corruptions
     for n, e, b in seeds:
         ln = len(b)
@@ -376,6 +394,13 @@ def gen_inputs(tier):
         seen.add(key)
         out.append(it)
     return out
+
+
+def _tmpfile(data):
+    f = tempfile.TemporaryFile(dir=vlib.BUILD)
+    f.write(data)
+    f.seek(0)
+    return f
 
 
 # ---------------------------------------------------------------------------------------------------
@@ -412,7 +437,7 @@ OLDBIG = b"Y" * 50000
 SINKS = {
     # name: (kind, old content, offset, extra xz options)
     "newfile": ("d", None, None, []),
-    "newfile-nosparse": ("d", None, None, ["--no-sparse"]),
+    "newfile-nosparse": ("d", None, None, ["--no-sparse", "--no-sync"]),
     "pipe": ("pipe", None, None, []),
     "trunc": ("fd", b"", 0, []),                       # > file
     "trunc-nosparse": ("fd", b"", 0, ["--no-sparse"]),
@@ -509,7 +534,8 @@ def sparse_plan(tier):
     sinks = list(SINKS)
     if tier == "quick":
         ok = [(s, 1) for s in sinks] + [("newfile", 4), ("trunc", 4), ("append", 4)]
-        bad = [(s, 1) for s in ("pipe", "trunc", "trunc-nosparse", "append", "rw-end", "rw-mid", "newfile")]
+        bad = [(s, 1) for s in ("pipe", "trunc", "trunc-nosparse", "append", "rw-end", "rw-mid", "newfile")] \
+            + [("pipe", 4), ("trunc", 4)]
     else:
         ok = [(s, T) for s in sinks for T in (1, 4)]
         bad = [(s, T) for s in ("pipe", "trunc", "trunc-nosparse", "append", "append-nosparse", "rw-end", "rw-mid",
@@ -538,11 +564,12 @@ def sparse_one(B, wd, layout, tier, acc, only=None):
     for T in sorted({t for _, t in okp + badp}):
         comp[T] = compress_for(B, wd, plain, T)
     # variants of the compressed input: complete; cut by 1 byte (all data decodes, then the footer is short);
-    # cut by 13 (inside the Index/Footer); last Block's Check corrupted (all data decodes, then LZMA_DATA_ERROR)
+    # cut by 13 (inside the Index/Footer); cut in the middle; one trailing junk byte; a bit flipped in the middle
     variants = [("ok", lambda c: c)]
     if len(plain) >= IOBUF:
         variants += [("cut1", lambda c: c[:-1]), ("cut13", lambda c: c[:-13]), ("cuthalf", lambda c: c[:len(c) // 2]),
-                     ("junk", lambda c: c + b"X")]
+                     ("junk", lambda c: c + b"X"),
+                     ("flipmid", lambda c: c[:len(c) // 2] + bytes([c[len(c) // 2] ^ 0x20]) + c[len(c) // 2 + 1:])]
     for vname, fn in variants:
         plan = okp if vname == "ok" else badp
         libs = {}
@@ -777,7 +804,7 @@ def run(tier):
     deadline = ck.deadline - 8
     distinct = set()
     try:
-        inputs = gen_inputs(tier)
+        inputs = gen_inputs(tier, B)
         layouts, nlay = sparse_layouts(S7 if tier == "quick" else S10)
         plains = rt_plaintexts()
         grid = rt_grid(tier)
@@ -822,7 +849,7 @@ def run(tier):
     return ck.finish(
         rule="files: every tests/files/*.{xz,lzma,lz}, every listed concatenation/raw input with the full tool matrix and every "
              "listed truncation / single-byte corruption with the reduced matrix, duplicates removed; sparse: every distinct plaintext "
-             "of the (data|zeros)^3 x boundary grid through every sink (and 4 failing variants of its compressed form through the "
+             "of the (data|zeros)^3 x boundary grid through every sink (and 5 failing variants of its compressed form through the "
              "sinks where partial output survives); rt: every option vector x 6 plaintexts. evaluations = tool runs compared with the "
              "oracle; distinct = distinct (input digest, tool case) pairs with an input some decoder recognises + distinct "
              "(plaintext, input variant, sink, threads) + distinct (plaintext, option vector)")
